@@ -926,18 +926,36 @@ func (w *w4) opResolve(id, seq int, op simrt.Op, rr *rand.Rand) {
 	var payload []byte
 	var err error
 	w.sim.Probe("c30.reader-call")
+	// one reader instance for the whole operation: a record may be delivered (and resolved) again
+	var res *lfs.Resolver
+	var cons *lfs.Consumer
 	if op.Kind == "resolve" {
-		res := lfs.NewResolver(lfs.ResolverConfig{MaxSize: maxSize, ValidateChecksum: true}, w5reader{w.s3api})
-		var rrec lfs.ResolvedRecord
-		rrec, _, err = res.Resolve(w.ctx, value)
-		payload = rrec.Payload
+		res = lfs.NewResolver(lfs.ResolverConfig{MaxSize: maxSize, ValidateChecksum: true}, w5reader{w.s3api})
 	} else {
 		maxSize = 0
-		cons := lfs.NewConsumer(w5reader{w.s3api}, lfs.WithChecksumValidation(true))
-		_, payload, err = cons.Unwrap(w.ctx, value)
+		cons = lfs.NewConsumer(w5reader{w.s3api}, lfs.WithChecksumValidation(true))
 	}
+	read := func() {
+		if res != nil {
+			var rrec lfs.ResolvedRecord
+			rrec, _, err = res.Resolve(w.ctx, value)
+			payload = rrec.Payload
+		} else {
+			_, payload, err = cons.Unwrap(w.ctx, value)
+		}
+	}
+	read()
 	if simrt.Dying() {
 		return
+	}
+	if err == nil && op.C == 0 && rr.IntN(3) == 0 {
+		// redelivery: the same envelope is resolved again by the same reader after the object was replaced
+		w.s3.Poke(key, w5payload(rr, len(data)))
+		w.sim.Probe("c30.re-read-after-replacement")
+		read()
+		if simrt.Dying() {
+			return
+		}
 	}
 	if err != nil {
 		w.sim.Probe("c30.reader-refused")
